@@ -130,6 +130,12 @@ def cases(ctx):
     # round
     for f, n in itertools.product([0.0, 1.5, 2.5, -2.5, 3.14159, 1e15, 1e300, float("inf"), float("nan"), 0.005, 123.456], [0, 1, 2, 3, 5, 15, 22, -1, -2, 100, 400, -400, 1000, wire.I64_MAX, wire.I64_MIN]):
         out.append(Case(f"builtin round {wire.d(f)} {wire.i(n)}", ("round",)))
+    # a key that IS present, whatever its value (null, falsey values included): contains is about the key, get about the value
+    for kk in (wire.s("k"), wire.i(1), wire.d(1.0), wire.c("c"), wire.b(7), wire.TRUE, wire.NULL, wire.a(wire.i(1))):
+        for vv in (wire.NULL, wire.i(0), wire.FALSE, wire.s(""), wire.a(), wire.i(5)):
+            mp = wire.m((wire.s("other"), wire.i(9)), (kk, vv))
+            for line in (f"contains {mp} {kk}", f"get {mp} {kk}", f"insert {mp} {kk} {wire.i(3)}", f"contains {mp} {wire.s('absent')}", f"get {mp} {wire.s('absent')}", f"len {mp}"):
+                out.append(Case("builtin " + line, ("present-key",)))
     # containers: push/pop/get/insert/contains/first/last/rest on random arrays and maps
     for _ in range(ctx.scale(800, 30000)):
         arr = wire.a(*[wire.rand_val(rng, 1) for _ in range(rng.randint(0, 4))])
